@@ -76,6 +76,7 @@ func (c *Ctx) pos(p token.Pos) string {
 }
 
 func (c *Ctx) seen(rule, key string) *Instance {
+	rule = c.mapRule(rule)
 	for i := range c.Instances {
 		if c.Instances[i].Rule == rule && c.Instances[i].Key == key {
 			return &c.Instances[i]
@@ -84,7 +85,16 @@ func (c *Ctx) seen(rule, key string) *Instance {
 	return nil
 }
 
+// mapRule renames a rule when a property borrows a clause from another one.
+func (c *Ctx) mapRule(rule string) string {
+	if r, ok := c.RuleAlias[rule]; ok {
+		return r
+	}
+	return rule
+}
+
 func (c *Ctx) record(rule, key, status string, p token.Pos, note string, nontrivial bool) {
+	rule = c.mapRule(rule)
 	if prev := c.seen(rule, key); prev != nil {
 		if prev.Status == status || status == "HOLDS" || status == "EXCEPTION" {
 			return
@@ -120,6 +130,7 @@ func (c *Ctx) exception(rule, key string, p token.Pos, reason string) {
 }
 
 func (c *Ctx) addFinding(kind, rule, key string, p token.Pos, fn, msg string, detail []string) {
+	rule = c.mapRule(rule)
 	for _, f := range c.Findings {
 		if f.Rule == rule && f.Key == key {
 			return
@@ -139,6 +150,7 @@ func (c *Ctx) undecided(rule, key string, p token.Pos, fn, msg string, detail ..
 
 // floor requires at least n instances of rule in this configuration.
 func (c *Ctx) floor(rule string, n int, what string) {
+	rule = c.mapRule(rule)
 	m := 0
 	for _, in := range c.Instances {
 		if in.Rule == rule {
